@@ -145,6 +145,8 @@ def _canon_cyto(items):
 
 
 ACCESSORS = ["statements", "source", "target", "intermediate", "columns", "cyto_table", "cyto_column", "summary"]
+# every public accessor incl. the flag variants of get_column_lineage (used where call order/multiplicity matters)
+ALL_ACCESSORS = ACCESSORS + ["columns_incl_subquery", "columns_no_subquery_cols"]
 
 
 def run_case(case, provider=None):
@@ -196,6 +198,14 @@ def run_case(case, provider=None):
                     elif acc == "columns":
                         live["paths"] = runner.get_column_lineage()
                         rec["column_paths"] = [[taps.coldesc(c) for c in p] for p in live["paths"]]
+                    elif acc == "columns_incl_subquery":
+                        ps2 = runner.get_column_lineage(exclude_path_ending_in_subquery=False)
+                        rec["column_paths_incl_subquery"] = [[taps.coldesc(c) for c in p] for p in ps2]
+                        live.setdefault("paths_extra", []).extend(ps2)
+                    elif acc == "columns_no_subquery_cols":
+                        ps3 = runner.get_column_lineage(exclude_subquery_columns=True)
+                        rec["column_paths_no_subquery_columns"] = [[taps.coldesc(c) for c in p] for p in ps3]
+                        live.setdefault("paths_extra", []).extend(ps3)
                     elif acc == "cyto_table":
                         live["cyto_table"] = runner.to_cytoscape()
                         rec["cyto_table"] = [it["data"] for it in live["cyto_table"]]
@@ -232,7 +242,7 @@ def run_case(case, provider=None):
         objs.extend(holder.graph.nodes)
     for h in st["holders"]:
         objs.extend(h.graph.nodes)
-    for p in live.get("paths", []):
+    for p in live.get("paths", []) + live.get("paths_extra", []):
         objs.extend(p)
     amap = _canon_map(objs)
     if "inv" in want and rec["outcome"] == "ok" and holder is not None:
@@ -247,6 +257,9 @@ def run_case(case, provider=None):
     for k in ("cyto_table", "cyto_column"):
         if k in rec:
             rec[k] = _canon_cyto(rec[k])
+    for k in ("column_paths_incl_subquery", "column_paths_no_subquery_columns"):
+        if k in rec:
+            rec[k] = sorted(rec[k])  # flag variants are compared as sets of paths (their order is the runner's, judged on column_paths)
     if "cyto_table" in rec:
         rec["table_edges"] = rec["cyto_table"]["edges"]
     if "column_paths" in rec:
